@@ -240,6 +240,8 @@ class Act:
         self.register = register
         self.rename = {}       # heap parameter of an inlined callee -> IR variable of the caller holding the argument
         self.inline_ok = None  # the one Call node that may be an inlined call right now
+        self.try_ctx = None    # id of the enclosing `try` statement while its body is being translated
+        self.in_try = False    # inside any part of a try statement (nested try statements are refused)
         self.rel, self.qual, self.pkinds = spec
         tree, self.filename = world.tree(self.rel)
         self.fn = find_def(tree, self.qual)
@@ -763,7 +765,9 @@ class Act:
 
     def new_info(self, s, kind, header_end=None):
         info = {"id": len(self.table), "line": s.lineno, "end": header_end if header_end is not None else s.end_lineno,
-                "kind": kind, "oracles": [], "calls": False, "first": None, "src": ast.unparse(s).splitlines()[0][:80]}
+                "kind": kind, "oracles": [], "calls": False, "first": None, "src": ast.unparse(s).splitlines()[0][:80],
+                "mayraise": self.try_ctx is not None, "tryid": self.try_ctx, "is_raise": isinstance(s, ast.Raise),
+                "body_last": None, "hfirst": None}
         for other in self.table.values():
             if not (info["end"] < other["line"] or other["end"] < info["line"]):
                 raise Unsupported("two statements share a source line (cannot be traced)", s, self.fnkey)
@@ -774,16 +778,60 @@ class Act:
         """id the first statement of a block will get (ids are given in translation order)"""
         return len(self.table)
 
+    MAYRAISE = "SIf (SRaise)\n(SSkip)"     # an exception that is not an explicit raise, in front of a statement of a try body
+
     def stmt(self, s):
-        if isinstance(s, (ast.If, ast.For, ast.While)):
-            return self.compound(s)
-        info = self.new_info(s, "simple")
-        self.cur = info
-        out = []
-        self.simple(s, out)
-        if info["calls"] and info["oracles"]:
-            self.err("a statement that reads indices/slices and also calls a translated function", s)
-        return seq(out)
+        guarded = self.try_ctx is not None
+        if isinstance(s, ast.Try):
+            ir = self.try_stmt(s)
+        elif isinstance(s, (ast.If, ast.For, ast.While)):
+            ir = self.compound(s)
+        else:
+            info = self.new_info(s, "simple")
+            self.cur = info
+            out = []
+            self.simple(s, out)
+            if info["calls"] and info["oracles"]:
+                self.err("a statement that reads indices/slices and also calls a translated function", s)
+            ir = seq(out)
+        return f"SSeq ({self.MAYRAISE})\n({ir})" if guarded else ir
+
+    def try_stmt(self, s):
+        """try/except/else/finally.  Over-approximation: in front of every statement of the body an oracle-chosen
+        exception (`SIf SRaise SSkip`); the handler is an oracle-chosen chain of the handler bodies ending in
+        `SRaise` (no handler matches, the exception propagates); else and finally bodies in sequence (HeapSem.exec)."""
+        if self.in_try:
+            self.err("nested try statements", s)
+        hdr_end = s.body[0].lineno - 1
+        if hdr_end < s.lineno:
+            self.err("body on the same line as its header", s)
+        info = self.new_info(s, "try", hdr_end)
+        info["mayraise"] = False
+        self.in_try = True
+        try:
+            self.try_ctx = info["id"]
+            body = self.block(s.body)
+            self.try_ctx = None
+            hfirst, hbodies = [], []
+            for h in s.handlers:
+                if h.type is not None:
+                    self.ptype(h.type)
+                if h.name is not None:
+                    unify(self.ntype(h.name), IMM(), h)      # the exception object: an immediate (any heap use fails closed)
+                if h.body[0].lineno <= h.lineno:
+                    self.err("handler body on the same line as `except`", h)
+                hfirst.append(len(self.table))
+                hbodies.append(self.block(h.body))
+            info["hfirst"] = hfirst
+            chain = "SRaise"
+            for hb in reversed(hbodies):
+                chain = f"SIf ({hb})\n({chain})"
+            orelse = self.block(s.orelse) if s.orelse else "SSkip"
+            fin = self.block(s.finalbody) if s.finalbody else "SSkip"
+        finally:
+            self.in_try = False
+            self.try_ctx = None
+        return f"STry ({body})\n({chain})\n({orelse})\n({fin})"
 
     def compound(self, s):
         hdr_end = s.body[0].lineno - 1
@@ -817,6 +865,7 @@ class Act:
                 self.bind_imm_target(s.target)
         info["first"] = len(self.table)
         body = self.block(s.body)
+        info["body_last"] = len(self.table) - 1
         return f"SLoop ({bd}) 0 ({body})"
 
     def bind_imm_target(self, t):
@@ -1052,7 +1101,8 @@ class Act:
 
 
 def _table_sig(tab):
-    return [(v["line"], v["end"], v["kind"], v["first"], tuple(v["oracles"])) for _, v in sorted(tab.items())]
+    return [(v["line"], v["end"], v["kind"], v["first"], tuple(v["oracles"]), v["mayraise"], v["tryid"],
+             tuple(v["hfirst"] or ())) for _, v in sorted(tab.items())]
 
 
 # --------------------------------------------------------------------------
@@ -1074,6 +1124,7 @@ def translate(repo_python):
                          "heap_params": [p for p in act.pnames if act.pkinds[p] != "imm"], "fnkey": act.fnkey}
         except Unsupported as ex:
             irs[name] = None
+            ex.fn = ex.fn or f"{spec[0]}:{spec[1]}"
             errors[name] = str(ex)
         except RecursionError:
             irs[name] = None
@@ -1206,19 +1257,54 @@ class Tracer:
             sid = line2stmt.get(frame.f_lineno)
             if sid is None or sid == fs["last"]:
                 return self._local
+            prev = fs["last"]
+            self._emit_handler(fs, sid)
             self._emit_pending(fs, sid)
             fs["last"] = sid
+            fs["exc"] = False
             info = tab[sid]
+            fs["ph"] = None
+            reentry = info["kind"] == "loop" and prev is not None and info["id"] < prev <= (info["body_last"] or -1)
+            if info["mayraise"] and not reentry:
+                fs["ph"] = len(self.out)      # placeholder of the statement's `SIf SRaise SSkip`
+                self.out.append(0)
             if info["kind"] in ("if", "loop"):
                 fs["pending"] = info
-            else:
+            elif info["kind"] == "simple":
                 self._oracles(frame, info)
         elif event == "return":
+            self._emit_handler(fs, None)
             self._emit_pending(fs, None)
+            parent = self.frames.get(id(frame.f_back)) if frame.f_back is not None else None
+            if parent is not None and fs["exc"]:
+                parent["child_raised"] = True
             del self.frames[id(frame)]
         elif event == "exception":
             fs["pending"] = None
+            fs["exc"] = True
+            info = tab.get(fs["last"]) if fs["last"] is not None else None
+            if info is not None and info["tryid"] is not None and fs["await"] is None:
+                if not info["is_raise"] and not fs["child_raised"]:
+                    # an exception that is not an explicit raise: the statement's guard fired, the statement did nothing
+                    if fs["ph"] is None or info["calls"]:
+                        self.problem = f"exception inside a try body at a point the IR has no guard for (line {frame.f_lineno})"
+                    else:
+                        self.out[fs["ph"]] = 1
+                        del self.out[fs["ph"] + 1:]
+                fs["await"] = tab[info["tryid"]]
+            fs["child_raised"] = False
         return self._local
+
+    def _emit_handler(self, fs, new_sid):
+        """which handler of the try statement took the exception (none: it propagates)"""
+        aw = fs["await"]
+        if aw is not None:
+            hf = aw["hfirst"] or []
+            if new_sid is not None and new_sid in hf:
+                self.out += [0] * hf.index(new_sid) + [1]
+            else:
+                self.out += [0] * len(hf)
+            fs["await"] = None
 
     def _global(self, frame, event, arg):
         if event != "call":
@@ -1228,7 +1314,8 @@ class Tracer:
         t = self.tables.get(key)
         if t is None:
             return None
-        self.frames[id(frame)] = {"tab": t, "last": None, "pending": None}
+        self.frames[id(frame)] = {"tab": t, "last": None, "pending": None, "ph": None, "await": None, "exc": False,
+                                  "child_raised": False}
         return self._local
 
     def run(self, fn, *args, **kw):
